@@ -63,6 +63,10 @@ type FnRun struct {
 	inInit        bool
 	snaps         map[string]*State
 	constCells    map[string]Term
+	action        *ssa.Function // the function literal when this run verifies a monitor action
+	monitor       *Monitor
+	actionVars    map[string]EV
+	monVars       map[string]EV
 	frameAllowed  map[string]*frameAllow
 	frameAll      bool
 	globalsChecked map[string]bool
@@ -103,7 +107,7 @@ func (r *FnRun) fnShort(fn *ssa.Function) string {
 }
 
 func (r *FnRun) addObl(kind, label string, goal Term, src string, cl *Clause, where token.Pos) {
-	name := fmt.Sprintf("%s#%s:%s", r.fnShort(r.Fn), kind, label)
+	name := fmt.Sprintf("%s#%s:%s", r.fnShortSafe(), kind, label)
 	r.nameCount[name]++
 	if n := r.nameCount[name]; n > 1 {
 		name = fmt.Sprintf("%s~%d", name, n)
@@ -116,7 +120,7 @@ func (r *FnRun) addObl(kind, label string, goal Term, src string, cl *Clause, wh
 }
 
 func (r *FnRun) addCover(label string, cond Term) {
-	r.Covers = append(r.Covers, &Cover{Name: fmt.Sprintf("%s#cover:%s", r.fnShort(r.Fn), label), Pos: r.Sc.Pos(), Cond: cond, Script: r.Sc, Fn: r.fnShort(r.Fn)})
+	r.Covers = append(r.Covers, &Cover{Name: fmt.Sprintf("%s#cover:%s", r.fnShortSafe(), label), Pos: r.Sc.Pos(), Cond: cond, Script: r.Sc, Fn: r.fnShort(r.Fn)})
 }
 
 // Frame is the execution of one function body (the function under contract, or an inlined callee).
